@@ -65,7 +65,7 @@ def partial_text(rng):
     h, mi, s, us = rng.randint(0, 23), rng.randint(0, 59), rng.randint(0, 59), rng.choice([0, 500000, 123456])
     mon = rng.choice([render_gen.MON[m - 1], render_gen.MONTH[m - 1]])
     form = rng.choice(['h-ampm', 'hm', 'hms', 'frac', 'year', 'month', 'month-year', 'day-month', 'month-day', 'iso-ym', 'date',
-                       'weekday', 'weekday-hm', 'date-hm', 'hms-h'])
+                       'weekday', 'weekday-hm', 'date-hm', 'hms-h', 'weekday-month', 'weekday-month', 'weekday-month-year'])
     if form == 'h-ampm':
         hh, ap = (12 if h % 12 == 0 else h % 12), ('AM' if h < 12 else 'PM')
         return form, '%d %s' % (hh, ap), {'hour': h}, None
@@ -97,6 +97,10 @@ def partial_text(rng):
     name = rng.choice([render_gen.WD[wd], render_gen.WEEKDAY[wd]])
     if form == 'weekday':
         return form, name, {}, wd
+    if form == 'weekday-month':
+        return form, '%s %s' % (name, mon), {'month': m}, wd
+    if form == 'weekday-month-year':
+        return form, '%s %s %04d' % (name, mon, y), {'month': m, 'year': y}, wd
     return form, '%s %02d:%02d' % (name, h, mi), {'hour': h, 'minute': mi}, wd
 
 
